@@ -270,9 +270,12 @@ func Execute(p *Plan, scratch string) (res *Result) {
 		r.hist = newHistory()
 	}
 	// setup runs before the simulation (no concurrency, no faults)
+	simrt.WaitStrays(2 * time.Second) // (of the run before this one: its end-of-run requests)
 	r.inSetup = true
 	err = r.setup()
 	r.inSetup = false
+	// helper goroutines the set-up requests started end before the simulation begins
+	simrt.WaitStrays(2 * time.Second)
 	if err != nil && !r.stopped() {
 		res.Infra = "setup: " + err.Error()
 		return
